@@ -43,6 +43,9 @@ class VirtualLoop(asyncio.BaseEventLoop):
         pass
 
     def run_in_executor(self, executor: t.Any, func: t.Callable[..., t.Any], *args: t.Any) -> "asyncio.Future[t.Any]":
+        # the function runs inline, but an executor object that was handed in keeps its contract: a pool that has been shut down refuses work
+        if executor is not None and getattr(executor, "_shutdown", False):
+            raise RuntimeError("cannot schedule new futures after shutdown")
         fut = self.create_future()
         try:
             fut.set_result(func(*args))
